@@ -46,16 +46,78 @@ Theorem C13_cache_rebuild_is_fresh : forall (B T : Type) (build : B -> slot -> T
 Proof. exact @rebuild_is_fresh. Qed.
 Print Assumptions C13_cache_rebuild_is_fresh.
 
-(* REFUTED under basis mutability: if a basis can be changed in place (SparseMatrixBasis elements are
-   writable in the implementation) a filled attribute is stale afterwards *)
-Theorem C13_cache_needs_immutable_basis_refuted : forall (B T : Type) (build : B -> slot -> T) b b' s,
+(* why "matrix bases cannot be modified" is needed: [Poke] is NOT an operation of quara; if a basis could be
+   changed in place, a filled attribute would be stale afterwards.  (Before fix sparse-matrix-basis-writable the
+   csr elements of a SparseMatrixBasis were writable, so [Poke] could be performed from outside; the harness
+   checks on every run that it cannot.) *)
+Theorem C13_cache_needs_immutable_basis : forall (B T : Type) (build : B -> slot -> T) b b' s,
   build b s <> build b' s ->
   let c := run build [Get s; Poke b'] (init b) in
   c_basis c = b' /\ get build c s <> Some (build (c_basis c) s).
 Proof. exact @cache_stale_if_basis_writable. Qed.
-Print Assumptions C13_cache_needs_immutable_basis_refuted.
+Print Assumptions C13_cache_needs_immutable_basis.
 
 (* ================= 2. loss-function objects re-configured per dataset ================= *)
+
+(* ---- 2a. the REPAIRED objects ([g_step_p repaired], [f_step_p repaired], [r_step_fixed]: the machines the
+   harness executes next to the implementation; fixes c12-se-identity-mode-reset, c12-se-alias-mode,
+   c12-se-fast-extended-weights, c12-re-set-weights-by-mode, c12-re-fast-extend-weights).
+   After ANY history of configurations and setter calls, from ANY state, a configuration evaluates the dataset
+   of the call with the weights named by the option of the call - exactly what a fresh object does. *)
+Theorem C13_generic_loss_history_independent : forall (D W V : Type) (invw : bool -> D -> W) (val : D -> option W -> V)
+  (ops : list lop) (s : gstate) d o,
+  g_value val (g_step_p invw repaired (g_run_p invw repaired ops s) (Configure d o)) = Some (spec invw val d o).
+Proof. exact @g_repaired_history_independent. Qed.
+Print Assumptions C13_generic_loss_history_independent.
+
+Theorem C13_fast_loss_history_independent : forall (D W V : Type) (invw : bool -> D -> W) (val : D -> option W -> V)
+  (ops : list lop) (s : fstate) d o,
+  f_value val (f_step_p invw repaired (f_run_p invw repaired ops s) (Configure d o)) = Some (spec invw val d o).
+Proof. exact @f_repaired_history_independent. Qed.
+Print Assumptions C13_fast_loss_history_independent.
+
+(* value()/gradient() of the fast loss are functions of its observable fields: after every operation the cached
+   extension mirrors weight_matrices (so set_weight_matrices takes effect, and no older extension survives) *)
+Theorem C13_fast_loss_value_observable : forall (D W V : Type) (invw : bool -> D -> W) (val : D -> option W -> V)
+  (ops : list lop) (op : lop) (s : fstate),
+  let s' := f_run_p invw repaired (ops ++ [op]) s in
+  f_ext s' = f_w s' /\ f_value val s' = option_map (fun d => val d (f_w s')) (f_data s').
+Proof. intros. split; [apply f_repaired_ext_mirrors|apply f_repaired_value_observable]. Qed.
+Print Assumptions C13_fast_loss_value_observable.
+
+Theorem C13_generic_loss_setter : forall (D W V : Type) (invw : bool -> D -> W) (val : D -> option W -> V)
+  (ops : list lop) (s : gstate) d o w,
+  g_value val (g_step_p invw repaired (g_step_p invw repaired (g_run_p invw repaired ops s) (Configure d o)) (SetW w))
+  = Some (val d w).
+Proof. exact @g_repaired_setter. Qed.
+Print Assumptions C13_generic_loss_setter.
+
+(* relative-entropy losses (generic and fast): modes identity / custom (the option class accepts no other) *)
+Theorem C13_relent_loss_history_independent : forall (D W V : Type) (invw : bool -> D -> W) (val : D -> option W -> V)
+  (ops : list lop) w0 d o,
+  r_mode o -> r_value val (r_run_fixed (ops ++ [Configure d o]) (r_init w0)) = Some (spec invw val d o).
+Proof. exact @r_repaired_history_independent. Qed.
+Print Assumptions C13_relent_loss_history_independent.
+
+Theorem C13_relent_loss_setter : forall (D W V : Type) (val : D -> option W -> V) (ops : list (@lop D W)) w0 d o w,
+  r_value val (r_run_fixed (ops ++ [Configure d o; SetW w]) (r_init w0)) = Some (val d w).
+Proof. exact @r_repaired_setter. Qed.
+Print Assumptions C13_relent_loss_setter.
+
+(* the parametrised machines without any repair are the machines of 2b, with all repairs those written out
+   as g_step_fixed / f_step_fixed *)
+Theorem C13_loss_machines_param : forall (D W : Type) (invw : bool -> D -> W) (op : lop),
+  (forall s, g_step_p invw as_coded s op = g_step invw s op) /\
+  (forall s, f_step_p invw as_coded s op = f_step invw s op) /\
+  (forall s, g_step_p invw repaired s op = g_step_fixed invw s op) /\
+  (forall s, f_step_p invw repaired s op = f_step_fixed invw s op).
+Proof. intros. split; [|split; [|split]]; intros s.
+  - apply g_step_p_as_coded. - apply f_step_p_as_coded. - apply g_step_p_repaired. - apply f_step_p_repaired. Qed.
+Print Assumptions C13_loss_machines_param.
+
+(* ---- 2b. the objects AS CODED BEFORE those fixes ([g_step], [f_step], [r_step]): exact description of what
+   they did, and the refutations of history independence.  The harness uses these machines only to NAME the
+   defect when the implementation deviates from 2a. *)
 
 (* generic loss, exact: after any history the configuration uses the option's weights if it names any,
    otherwise whatever the history left behind *)
@@ -67,11 +129,11 @@ Proof. exact @g_value_after_configure. Qed.
 Print Assumptions C13_generic_loss_after_configure.
 
 (* generic loss, custom / inverse-covariance modes: history independent (all histories) *)
-Theorem C13_generic_loss_history_independent : forall (D W V : Type) (invw : bool -> D -> W) (val : D -> option W -> V)
+Theorem C13_generic_loss_before_fix_resetting_modes : forall (D W V : Type) (invw : bool -> D -> W) (val : D -> option W -> V)
   (ops : list lop) w0 d o,
   resets o -> g_value val (g_run invw (ops ++ [Configure d o]) (g_init w0)) = Some (spec invw val d o).
 Proof. exact @g_configure_history_independent. Qed.
-Print Assumptions C13_generic_loss_history_independent.
+Print Assumptions C13_generic_loss_before_fix_resetting_modes.
 
 (* generic loss, identity: right as long as the object never carried weights *)
 Theorem C13_generic_loss_identity_only : forall (D W V : Type) (invw : bool -> D -> W) (val : D -> option W -> V)
@@ -144,22 +206,39 @@ Theorem C13_fast_loss_setter_stale_refuted : forall (D W V : Type) (invw : bool 
 Proof. exact @f_setter_stale_refuted. Qed.
 Print Assumptions C13_fast_loss_setter_stale_refuted.
 
-(* relative-entropy losses: configuring never touches the weights, the extension is rebuilt every time *)
-Theorem C13_relent_loss_history_independent : forall (D W V : Type) (val : D -> option W -> V) (ops : list (@lop D W)) w0 d o,
+(* relative-entropy losses before the fixes: configuring never touched the weights (the option was ignored) *)
+Theorem C13_relent_loss_before_fix_ignores_option : forall (D W V : Type) (val : D -> option W -> V) (ops : list (@lop D W)) w0 d o,
   (forall op, In op ops -> match op with SetW _ => False | _ => True end) ->
   r_value val (r_run (ops ++ [Configure d o]) (r_init w0)) = Some (val d w0).
 Proof. exact @r_value_after_configure. Qed.
-Print Assumptions C13_relent_loss_history_independent.
-
-(* after the proposed fixes every configuration is history independent *)
-Theorem C13_losses_fixed_history_independent : forall (D W V : Type) (invw : bool -> D -> W) (val : D -> option W -> V)
-  (ops : list lop) d o,
-  (forall s, g_value val (g_step_fixed invw (fold_left (g_step_fixed invw) ops s) (Configure d o)) = Some (spec invw val d o)) /\
-  (forall s, f_value val (f_step_fixed invw (fold_left (f_step_fixed invw) ops s) (Configure d o)) = Some (spec invw val d o)).
-Proof. intros. split; intros; reflexivity. Qed.
-Print Assumptions C13_losses_fixed_history_independent.
+Print Assumptions C13_relent_loss_before_fix_ignores_option.
 
 (* ================= 3. ProjectedGradientDescent objects ================= *)
+
+(* ---- 3a. the REPAIRED object ([a_step_fixed user], fix pgd-cached-func-proj; the machine the harness executes):
+   after any earlier configurations, from any state, the projection in effect is the one handed to the
+   constructor if there is one, otherwise the one built from the (qt, option) of THIS call *)
+Theorem C13_algo_history_independent : forall (Q O P : Type) (mkproj : Q -> O -> P) (user : option P) cs (s : astate) c,
+  a_proj (a_step_fixed mkproj user (fold_left (a_step_fixed mkproj user) cs s) c) =
+  Some (match user with Some p => p | None => mkproj (fst c) (snd c) end).
+Proof. exact @a_fixed_history_independent. Qed.
+Print Assumptions C13_algo_history_independent.
+
+(* whole estimation loop (calc_estimate_sequence) with REPAIRED loss and algorithm objects re-used over arbitrary
+   earlier jobs, from any state: every job returns what fresh objects return; [solve] is the optimiser as an
+   oracle that sees the objects only through (value/gradient, projection, qt, option) *)
+Theorem C13_estimation_history_independent :
+  forall (D W V Q O P R : Type) (invw : bool -> D -> W) (val : D -> option W -> V) (mkproj : Q -> O -> P)
+         (qt_of : D -> Q) (solve : option V -> option P -> option Q -> option O -> R) j,
+  (forall st js, snd (est_step_gp invw val mkproj qt_of solve repaired
+                        (est_run_gp invw val mkproj qt_of solve repaired st js) j) = est_spec invw val mkproj qt_of solve j) /\
+  (forall st js, snd (est_step_fp invw val mkproj qt_of solve repaired
+                        (est_run_fp invw val mkproj qt_of solve repaired st js) j) = est_spec invw val mkproj qt_of solve j).
+Proof. intros. split; intros; [apply est_repaired_history_independent|apply est_repaired_fast_history_independent]. Qed.
+Print Assumptions C13_estimation_history_independent.
+
+(* ---- 3b. the object AS CODED BEFORE fix pgd-cached-func-proj ([a_step]); used by the harness only to name the
+   defect when the implementation deviates from 3a *)
 
 (* exact: the projection is that of the FIRST configuration; qt and option follow the LAST *)
 Theorem C13_algo_projection_is_first : forall (Q O P : Type) (mkproj : Q -> O -> P) c cs c',
@@ -181,8 +260,9 @@ Theorem C13_algo_history_independent_refuted : forall (Q O P : Type) (mkproj : Q
 Proof. exact @a_history_independent_refuted. Qed.
 Print Assumptions C13_algo_history_independent_refuted.
 
-(* whole estimation, generic loss + algorithm re-used over arbitrary earlier jobs *)
-Theorem C13_estimation_generic_history_independent :
+(* whole estimation before the fixes, generic loss + algorithm re-used over arbitrary earlier jobs: only jobs
+   whose mode resets the weights and whose projection equals that of the first job were right *)
+Theorem C13_estimation_before_fix_partial :
   forall (D W V Q O P R : Type) (invw : bool -> D -> W) (val : D -> option W -> V) (mkproj : Q -> O -> P)
          (qt_of : D -> Q) (solve : option V -> option P -> option Q -> option O -> R) (j0 : job) js j,
   resets (j_mode j) -> same_proj mkproj qt_of j0 j ->
@@ -190,10 +270,37 @@ Theorem C13_estimation_generic_history_independent :
          (est_run_g invw val mkproj qt_of solve (g_init None, a_init None) (j0 :: js)) j)
   = est_spec invw val mkproj qt_of solve j.
 Proof. exact @est_generic_history_independent. Qed.
-Print Assumptions C13_estimation_generic_history_independent.
+Print Assumptions C13_estimation_before_fix_partial.
 
 (* ================= 4. array heap: MProcess.calc_proj_eq_constraint_with_var ================= *)
 
+(* ---- 4a. the REPAIRED function ([proj_eq_with_var_fixed], fix mprocess-proj-eq-var-mutates-argument; the model the
+   harness executes): no buffer that existed before the call is written, in either mode - in particular not
+   the argument - and the result is a newly allocated buffer (so it aliases nothing) *)
+Theorem C13_mprocess_proj_eq_pure : forall (F : OF) (h : heap F) d2 on_para var h' res,
+  proj_eq_with_var_fixed F h d2 on_para var = Some (h', res) ->
+  (forall b, (b < h_next F h)%nat -> h_buf F h' b = h_buf F h b) /\
+  (h_next F h <= a_buf res)%nat /\ (a_buf res < h_next F h')%nat.
+Proof. exact proj_eq_fixed_pure. Qed.
+Print Assumptions C13_mprocess_proj_eq_pure.
+
+Theorem C13_mprocess_proj_eq_operands_unchanged : forall (F : OF) (h : heap F) d2 on_para var h' res (x : arr) i,
+  proj_eq_with_var_fixed F h d2 on_para var = Some (h', res) -> live F h x -> rd F h' x i = rd F h x i.
+Proof. exact proj_eq_fixed_reads_unchanged. Qed.
+Print Assumptions C13_mprocess_proj_eq_operands_unchanged.
+
+(* convert_var_to_hss (unchanged by the fix) writes nothing that existed; its results are views of a new buffer
+   when on_para_eq_constraint = True and views of the ARGUMENT otherwise (the harness compares buffer and offset
+   of every returned array with this) *)
+Theorem C13_convert_var_to_hss_pure : forall (F : OF) (h : heap F) d2 on_para var h1 hss,
+  convert_var_to_hss F h d2 on_para var = Some (h1, hss) ->
+  (forall b, (b < h_next F h)%nat -> h_buf F h1 b = h_buf F h b) /\
+  (h_next F h <= h_next F h1)%nat /\
+  (forall a, In a hss -> a_buf a = if on_para then S (h_next F h) else a_buf var).
+Proof. exact convert_spec. Qed.
+Print Assumptions C13_convert_var_to_hss_pure.
+
+(* ---- 4b. the function AS CODED BEFORE that fix ([proj_eq_with_var]) *)
 (* frame: nothing that existed before the call is written, except - when on_para_eq_constraint = False -
    the buffer of the argument itself; the result is a new buffer *)
 Theorem C13_mprocess_proj_eq_frame : forall (F : OF) (h : heap F) d2 on_para var h' res,
@@ -244,13 +351,6 @@ Proof.
 Qed.
 Print Assumptions C13_mprocess_proj_eq_mutates_argument_refuted.
 
-(* after the proposed fix (copy in convert_var_to_hss) no existing buffer is written in either mode *)
-Theorem C13_mprocess_proj_eq_fixed_pure : forall (F : OF) (h : heap F) d2 on_para var h' res,
-  proj_eq_with_var_fixed F h d2 on_para var = Some (h', res) ->
-  forall b, (b < h_next F h)%nat -> h_buf F h' b = h_buf F h b.
-Proof. exact proj_eq_fixed_pure. Qed.
-Print Assumptions C13_mprocess_proj_eq_fixed_pure.
-
 (* ================= non-vacuity ================= *)
 
 (* the hypothesis "weights matter" of the refutations, on the executed numerical instance: one two-outcome
@@ -278,6 +378,27 @@ Example C13_example_fast_refuted :
     f_value ex_val (f_run ex_invw (ops1 ++ [Configure (ex_ds (Q2Qc (3#5))) InvSample]) (f_init None)) <>
     f_value ex_val (f_run ex_invw (ops2 ++ [Configure (ex_ds (Q2Qc (3#5))) InvSample]) (f_init None)).
 Proof. exact (C13_fast_loss_inverse_refuted _ _ _ ex_invw ex_val _ _ C13_example_weights_matter). Qed.
+(* ... while the repaired machines give, on the very same history, the value of a fresh object *)
+Example C13_example_repaired :
+  let d := ex_ds (Q2Qc (3#5)) in let d1 := ex_ds (Q2Qc (4#5)) in
+  f_value ex_val (f_run_p ex_invw repaired [Configure d1 InvSample; Configure d Identity] (f_init None)) = Some (ex_val d None) /\
+  f_value ex_val (f_run_p ex_invw repaired [Configure d Identity] (f_init None)) = Some (ex_val d None) /\
+  f_value ex_val (f_run ex_invw [Configure d1 InvSample; Configure d Identity] (f_init None)) <> Some (ex_val d None).
+Proof.
+  cbv zeta.
+  destruct (repaired_vs_coded_example ex_invw ex_val (ex_ds (Q2Qc (3#5))) (ex_ds (Q2Qc (4#5)))) as [A [B C]].
+  split; [exact A|split; [exact B|exact (C C13_example_weights_matter)]].
+Qed.
+(* the repaired projection on the witness of 4b: the argument is untouched and the returned values are those
+   the old code returned *)
+Example C13_wit_fixed :
+  match proj_eq_with_var_fixed Qc_OF (fst wit_heap) 4 false (snd wit_heap), proj_eq_with_var Qc_OF (fst wit_heap) 4 false (snd wit_heap) with
+  | Some (h', r'), Some (h0, r0) =>
+      Some (forallb (fun i => Qeq_bool (this (rd Qc_OF h' (snd wit_heap) i)) (this (rd Qc_OF (fst wit_heap) (snd wit_heap) i))) (seq 0 32),
+            forallb (fun i => Qeq_bool (this (rd Qc_OF h' r' i)) (this (rd Qc_OF h0 r0 i))) (seq 0 32),
+            Nat.eqb (a_len r') 32)
+  | _, _ => None end = Some (true, true, true).
+Proof. vm_compute. reflexivity. Qed.
 (* a concrete cache history: build, delete, rebuild, query a sibling; tables are named by their slot *)
 Example C13_example_cache :
   let ops := [Get BT; Del Bc; Get BBcT; Del BT; Get Bc; Del BcB; Get BBcT1] in
